@@ -81,9 +81,12 @@ class Oracle:
         if perm is None or sorted(perm) != list(range(n)):
             perm = list(range(n))
             self.prng.shuffle(perm)
-        old = list(lst)
-        for i in range(n):
-            lst[i] = old[perm[i]]
+        if isinstance(lst, numpy.ndarray):
+            lst[:] = lst[list(perm)]          # fancy indexing copies, rows of an array are views
+        else:
+            old = list(lst)
+            for i in range(n):
+                lst[i] = old[perm[i]]
         self.log.append(('shuffle', tuple(perm)))
 
     # -- views of the log
